@@ -408,6 +408,10 @@ def gen_scheme(ctx):
     cases.append(("sign %s %s %s %s %s" % (h64(KS_STD), "416c696365", "6d7367", "ff" * 32 + le32(N) + ent(), bits(4, 104 * 8)),
                   "sign:entropy:redraw", chk_sign(3)))
     cases.append(("sign %s %s %s %s -" % (h64(KS_STD), "416c696365", "6d7367", le32(N - 2) + ent()), "sign:entropy:r=N-2", chk_sign(1)))
+    # a zero draw must not be used as nonce (c0d02d5): it is redrawn
+    cases.append(("sign %s %s %s %s -" % (h64(KS_STD), "416c696365", "6d7367", le32(0) + ent()), "sign:entropy:zero-draw", chk_sign(2)))
+    cases.append(("enc %s 426f62 %s %s -" % (h64(KE_STD), r.bytes(9).hex(), le32(0) + le32(0) + ent()), "enc:entropy:zero-draw",
+                  lambda a: chk_enc(a) or (None if "draws=3" in a else "zero draw was not redrawn: " + a[-12:])))
     # drawn r with zero 64-bit limbs (below the top limb, in the middle, single limb)
     for k in [2**64, 2**128, 2**192, 5 * 2**64, 2**192 + 1, (2**64 - 1) << 128, (2**63 << 192) | (2**64 - 1), 7 << 128 | 3]:
         cases.append(("sign %s %s %s %s -" % (h64(KS_STD), "416c696365", "6d7367", le32(k) + r.bytes(32).hex()),
@@ -466,7 +470,9 @@ def run_exchange(ctx, impl_exe):
     for i, ke in enumerate(kes):
         a, b = ids[i % 2]
         for j in range(2):                      # two runs that differ only in the entropy served
-            lines.append("exch %s %s %s %s %s %d" % (h64(ke), core.hexs(a), core.hexs(b), r.bytes(64).hex(), r.bytes(64).hex(), [16, 48][i % 2]))
+            # first draw of each stream is a valid r (a script that runs dry continues with a fixed tail)
+            lines.append("exch %s %s %s %s %s %d" % (h64(ke), core.hexs(a), core.hexs(b), le32(1 + rnd(r, N - 1)) + r.bytes(32).hex(),
+                                                      le32(1 + rnd(r, N - 1)) + r.bytes(32).hex(), [16, 48][i % 2]))
     for ka, kb in [(2**64, 2**128 + 5), (2**192, 3 << 64), ((2**64 - 1) << 128, 2**64 | (1 << 192)), (5 * 2**64, 2**128)]:
         for j in range(2):      # pairs again: the second run swaps the two ephemerals (still different entropy)
             x, y = (ka, kb) if j == 0 else (kb, ka)
@@ -827,7 +833,7 @@ def run_import(ctx, impl_exe, model_exe):
     out, err = core.run_lines(impl_exe, [c[0] for c in cases], shards=16)
     for (line, cell, ok, exp), a in zip(cases, out):
         ctx.cov["evaluations"] += 1; ctx.count("op:" + line.split(" ")[0])
-        acc = a.startswith("1 ") or (line.startswith(("g1 oct", "g2 oct")) and not a.startswith(("ERR", "FAULT", "-1", "0")))
+        acc = (a != "ERR" and not a.startswith("FAULT")) if line.startswith(("g1 oct", "g2 oct")) else a.startswith("1 ")
         if a.startswith("FAULT"):
             viol(cell, "import faulted", line, a, "accepted" if ok else "refused")
         elif acc and not ok:
@@ -1054,21 +1060,20 @@ def run_wave5(ctx, impl_exe, model_exe):
                             {"kind": "failing-input", "op": il, "impl": a, "expected": exp, "model_op": ml}, True)
     # ---- entropy consumers (scripted getentropy; a 256-bit draw is the little-endian image of the limbs)
     cases = []
-    def rr_expect(draws, n, fail_at=None):
-        for i, d in enumerate(draws):
-            if fail_at is not None and i == fail_at: return "-1 %d" % (i + 1), None
-            if d < n: return "1 %d %s" % (i + 1, h64(d)), i + 1
-            if i == 99: return "0 100", None
-        return None, None
     def stream(draws): return "".join(le32(d) for d in draws)
     big = 2**256 - 1
+    rdiff = []
     for n, nm in ((N, "N"), (P, "p"), (2, "two")):
-        for draws in ([n - 1], [0], [n, n - 2], [big, n, 1], [n + 1] * 3 + [1]):
-            e, _ = rr_expect(draws, n)
-            cases.append(("rnd range %s %s" % (stream(draws), h64(n)), "rnd:range:%s:%s" % (nm, "first" if draws[0] < n else "redraw"), e))
-    cases.append(("rnd range %s %s" % (stream([big] * 100 + [1]), h64(N)), "rnd:range:100-tries", "0 100"))
-    cases.append(("rnd rangefail %s %s 0" % (stream([1]), h64(N)), "rnd:range:entropy-fails", "-1 1"))
-    cases.append(("rnd rangefail %s %s 1" % (stream([big, 1]), h64(N)), "rnd:range:entropy-fails-on-redraw", "-1 2"))
+        for draws, cls in (([n - 1], "first"), ([1], "first"), ([0, 1], "zero-redraw"), ([0, 0, n - 1], "zero-redraw"), ([n, n - 2 if n > 2 else 1], "high-redraw"),
+                           ([big, n, 0, 1], "redraw"), ([n + 1] * 3 + [1], "redraw")):
+            rdiff.append(("rnd range %s %s" % (stream(draws), h64(n)), "rnd:range:%s:%s" % (nm, cls)))
+    rdiff.append(("rnd range %s %s" % (stream([big] * 100 + [1]), h64(N)), "rnd:range:100-tries"))
+    rdiff.append(("rnd range %s %s" % (stream([0] * 100 + [1]), h64(N)), "rnd:range:100-zero-draws"))
+    rdiff.append(("rnd range %s %s" % (stream([big] * 99 + [7]), h64(N)), "rnd:range:100th-try"))
+    rdiff.append(("rnd rangefail %s %s 0" % (stream([1]), h64(N)), "rnd:range:entropy-fails"))
+    rdiff.append(("rnd rangefail %s %s 1" % (stream([big, 1]), h64(N)), "rnd:range:entropy-fails-on-redraw"))
+    rdiff.append(("rnd rangefail %s %s 1" % (stream([0, 1]), h64(N)), "rnd:range:entropy-fails-after-zero"))
+    run_diff(ctx, rdiff, impl_exe, model_exe)
     for lvl, n, order in (("fp2", 2, [0, 1]), ("fp4", 4, [2, 3, 0, 1]), ("fp12", 12, [2, 3, 0, 1, 6, 7, 4, 5, 10, 11, 8, 9])):
         vals = [rnd(r, P) for _ in range(n)]
         draws = []; 
@@ -1081,6 +1086,8 @@ def run_wave5(ctx, impl_exe, model_exe):
     kk = rnd(r, N)
     cases.append(("rnd smsk " + stream([N, kk]), "rnd:keygen:smsk", "1 2 %s %s" % (h64(kk), ref.g2_hex(G2.mulp(kk, ref.P2)))))
     cases.append(("rnd emsk " + stream([kk]), "rnd:keygen:emsk", "1 1 %s %s" % (h64(kk), ref.g1_hex(G1.mulp(kk, ref.P1)))))
+    cases.append(("rnd smsk " + stream([0, kk]), "rnd:keygen:smsk:zero-draw", "1 2 %s %s" % (h64(kk), ref.g2_hex(G2.mulp(kk, ref.P2)))))
+    cases.append(("rnd emsk " + stream([0, 0, kk]), "rnd:keygen:emsk:zero-draw", "1 3 %s %s" % (h64(kk), ref.g1_hex(G1.mulp(kk, ref.P1)))))
     cases.append(("rnd emsk " + stream([N - 74]), "rnd:keygen:emsk:N-74", "1 1 %s %s" % (h64(N - 74), ref.g1_hex(G1.mulp(N - 74, ref.P1)))))
     A = G1.mulp(rnd(r, N), ref.P1); B = G2.mulp(rnd(r, N), ref.P2)
     cases.append(("hexrt g1 " + ref.g1_hex(A), "hexrt:g1", "1 %s %s %s" % (h64(A[0]), h64(A[1]), h64(1))))
